@@ -10,8 +10,8 @@ Two readings of the same program over straight-line bodies with calls at any nes
   `(domain, name)`; the body is looked up in the model's function table (one entry per key, built by
   `Func.table` with the differs ⇒ error rule) and evaluated on the actual arguments.
 
-Operator meaning `S` is an arbitrary parameter. Each node yields one value, appended to the
-environment; inputs are positions in the environment. Core Lean only.
+Operator meaning `S` is an arbitrary parameter. An operator node yields one value, a call one value per
+declared output of the function (multi-output functions), appended to the environment; inputs are positions in the environment. Core Lean only.
 -/
 namespace FuncSem
 
@@ -20,7 +20,7 @@ inductive SNode where
   | op (label : Nat) (ins : List Nat)
   | call (inst : SInst) (ins : List Nat)
 inductive SInst where
-  | mk (key : Nat) (body : List SNode) (out : Nat)
+  | mk (key : Nat) (body : List SNode) (outs : List Nat)
 end
 
 /-- nodes as they appear in the built model: a call is just a key -/
@@ -31,7 +31,7 @@ deriving DecidableEq, Repr
 
 structure ODef where
   body : List ONode
-  out : Nat
+  outs : List Nat
 deriving DecidableEq, Repr
 
 variable {Val : Type}
@@ -39,12 +39,13 @@ variable {Val : Type}
 mutual
 def evalNodes (S : Nat → List Val → Val) (dflt : Val) : List SNode → List Val → List Val
   | [], env => env
-  | n :: rest, env => evalNodes S dflt rest (env ++ [evalNode S dflt n env])
-def evalNode (S : Nat → List Val → Val) (dflt : Val) : SNode → List Val → Val
-  | .op l ins, env => S l (ins.map (fun i => env.getD i dflt))
+  | n :: rest, env => evalNodes S dflt rest (env ++ evalNode S dflt n env)
+/-- the values a node yields: one for an operator, one per declared output for a call -/
+def evalNode (S : Nat → List Val → Val) (dflt : Val) : SNode → List Val → List Val
+  | .op l ins, env => [S l (ins.map (fun i => env.getD i dflt))]
   | .call inst ins, env => evalInst S dflt inst (ins.map (fun i => env.getD i dflt))
-def evalInst (S : Nat → List Val → Val) (dflt : Val) : SInst → List Val → Val
-  | .mk _ body out, args => (evalNodes S dflt body args).getD out dflt
+def evalInst (S : Nat → List Val → Val) (dflt : Val) : SInst → List Val → List Val
+  | .mk _ body outs, args => outs.map (fun o => (evalNodes S dflt body args).getD o dflt)
 end
 
 mutual
@@ -67,7 +68,7 @@ def defsN : SNode → List (Nat × ODef)
   | .op _ _ => []
   | .call inst _ => defsI inst
 def defsI : SInst → List (Nat × ODef)
-  | .mk k body out => (k, ⟨eraseNs body, out⟩) :: defsNs body
+  | .mk k body outs => (k, ⟨eraseNs body, outs⟩) :: defsNs body
 end
 
 mutual
@@ -94,7 +95,7 @@ def evalO (S : Nat → List Val → Val) (dflt : Val) (tbl : List (Nat × ODef))
     | some d =>
       match evalO S dflt tbl fuel d.body (ins.map (fun i => env.getD i dflt)) with
       | none => none
-      | some env' => evalO S dflt tbl (fuel + 1) rest (env ++ [env'.getD d.out dflt])
+      | some env' => evalO S dflt tbl (fuel + 1) rest (env ++ d.outs.map (fun o => env'.getD o dflt))
 termination_by fuel ns _ => (fuel, ns.length)
 
 /-- the model's function table for a program: all reachable definitions, de-duplicated;
